@@ -299,14 +299,18 @@ func init() {
 		"syscall.Getenv":             func(fr *frame, args []value) value { v := fr.i.getenv(args[0]); return tuple{v, strLen(v) > 0} },
 		"(*os.File).Write": func(fr *frame, args []value) value {
 			data := args[1].([]value)
-			if _, n := fr.i.openFile(args[0]); n != nil {
+			if _, n := fr.i.openFile(args[0]); n != nil && len(data) > 0 {
+				fr.i.ex.fs.crashCheck()
 				n.data = append(n.data, data...)
+				fr.i.ex.fs.mut("append")
 			}
 			return tuple{len(data), iface{}}
 		},
 		"(*os.File).WriteString": func(fr *frame, args []value) value {
-			if _, n := fr.i.openFile(args[0]); n != nil {
+			if _, n := fr.i.openFile(args[0]); n != nil && strLen(args[1]) > 0 {
+				fr.i.ex.fs.crashCheck()
 				n.data = append(n.data, strBytes(args[1])...)
+				fr.i.ex.fs.mut("append")
 			}
 			return tuple{strLen(args[1]), iface{}}
 		},
